@@ -246,12 +246,13 @@ def drive_siblings(ctx):
     from ..src import rename_id
     steps = [rename_id(norm(n.value), rname, "X") for n in own_nodes(fu.node) if isinstance(n, ast.Assign) and norm(n.targets[0]) == rname]
     scaled1 = " ; ".join(steps)
-    init_scaled = [norm(n.value) for n in own_nodes(fi.node) if isinstance(n, ast.Assign) and norm(n.targets[0]) == "current_A_applied"
-                   and "A_scale" in norm(n.value)]
+    init_scaled = [rename_id(norm(n.value), n.targets[0].id, "X") for n in own_nodes(fi.node)
+                   if isinstance(n, ast.Assign) and len(n.targets) == 1 and isinstance(n.targets[0], ast.Name) and "A_scale" in norm(n.value)]
     ok1 = len(steps) >= 2 and steps[0].startswith("self.applied_vector_potential(") and \
         sum(1 for t in steps if t in ("self.A_scale * X[:, :2]", "X[:, :2] * self.A_scale")) == 1 and \
         all(t.startswith("self.applied_vector_potential(") or t in ("self.A_scale * X[:, :2]", "X[:, :2] * self.A_scale", "cupy.asarray(X)") for t in steps)
-    ok0 = init_scaled == ["self.A_scale * np.asarray(current_A_applied)[:, :2]"]
+    from ..dataflow import canon_text
+    ok0 = [canon_text(t) for t in init_scaled] == [canon_text("self.A_scale * np.asarray(X)[:, :2]")]
     ctx.ob("R08.5", "update_applied_vector_potential evaluates A at (edge centres, z0, t=time) and scales the x,y components by A_scale, like __init__",
            ok and ok0 and ok1, detail={"init_call": [norm(c) for c in c0], "update_call": [norm(c) for c in c1], "init_scaled": init_scaled,
                                         "update_returns": scaled1[:160]},
@@ -260,9 +261,19 @@ def drive_siblings(ctx):
            consequence="a time-dependent applied field jumps by a unit-dependent factor at the first step (A(t) and A(0) use different scales or points)")
     e0 = [n for n in own_nodes(fi.node) if isinstance(n, ast.Call) and norm(n.func) == "disorder_epsilon"]
     e1 = [n for n in own_nodes(fe.node) if isinstance(n, ast.Call) and norm(n.func) == "self.disorder_epsilon"]
-    a0 = sorted(norm(c.args[0]) for c in e0 if c.args)
-    a1 = sorted(norm(c.args[0]) for c in e1 if c.args)
-    ok = a0 == a1 == ["r", "self.sites"] and all(any(k.arg == "t" and norm(k.value) == "time" for k in c.keywords) for c in e1)
+    def point_arg(fn, c):
+        """Canonical text of the position argument: a comprehension variable is named by what it ranges over."""
+        a = c.args[0]
+        if isinstance(a, ast.Name):
+            for comp in ast.walk(fn):
+                if isinstance(comp, (ast.ListComp, ast.GeneratorExp, ast.SetComp)) and any(x is c for x in ast.walk(comp)):
+                    for g in comp.generators:
+                        if isinstance(g.target, ast.Name) and g.target.id == a.id:
+                            return f"each({norm(g.iter)})"
+        return norm(a)
+    a0 = sorted(point_arg(fi.node, c) for c in e0 if c.args)
+    a1 = sorted(point_arg(fe.node, c) for c in e1 if c.args)
+    ok = a0 == a1 == ["each(self.sites)", "self.sites"] and all(any(k.arg == "t" and norm(k.value) == "time" for k in c.keywords) for c in e1)
     ctx.ob("R08.5", "update_epsilon evaluates epsilon at the same points (self.sites / each r in self.sites) with t=time", ok,
            detail={"init": a0, "update": a1}, where=fe.fq, construct="time-dependent epsilon evaluation", loc=loc(fe, fe.node),
            message=f"epsilon evaluation sites differ: init {a0}, update {a1}", consequence="a time-dependent disorder map is sampled at other positions after t=0")
